@@ -259,7 +259,7 @@ class OutputManager:
         # add monthly load summary
         monthly_load_values = []
         n_months = len(design.ghe.hybrid_load.monthly_cl) - 1
-        n_years = int(n_months / 12)
+        n_years = -(-n_months // 12)  # whole or started years, so every month of the horizon has a label
         months = n_years * [
             "January",
             "February",
@@ -522,7 +522,7 @@ class OutputManager:
 
         monthly_load_values = []
         n_months = len(design.ghe.hybrid_load.monthly_cl) - 1
-        n_years = int(n_months / 12)
+        n_years = -(-n_months // 12)  # whole or started years, so every month of the horizon has a label
         months = n_years * [
             "January",
             "February",
